@@ -38,10 +38,13 @@ func init() {
 			"(D7) the snapshot of the log that UpdateIndex walks (the Values()/GetEntries() call, or the call of the helper that makes it) is taken with the index mutex write-held and the mutex is not released between the snapshot and the walk: go-orbit-db does not serialise UpdateIndex calls, and a snapshot taken outside the lock lets the call that read the older log write the state last; " +
 			"(D8) no write to index state in a handler or post-index action depends, by data (stored value, key) or by control (a dominating decision, directly or through a callee), on the key of the own DEVICE (MemberDevice.Device() of the index's configured member device): devices of one member hold the same log and must report the same state; the handler of GroupDeviceChainKeyAdded is exempt (whether this device has sent its own chain key is device-local bookkeeping); " +
 			"(D9) the go-orbit-db CreateDBOptions with which group stores are opened (module functions with a *Group parameter that fill the options' Identity) set SortFn to a comparator with a total tie-break (sorting.SortByEntryHash): every device writes under the group's one ipfs-log identity, so concurrent entries tie on clock time and clock id and the default LastWriteWins/sorting.First orders them by arrival. " +
+			"(D10) no success return of UpdateIndex bypasses the entry loop on a test of state the index remembers from an earlier call (a remembered tip/length/flag): an unchanged remembered value does not mean an unchanged log; " +
+			"(D11) in the handlers (not the post-index actions) no branch that decides a write to index state reads never-reset state accumulated from other entries, except the idempotence guard of D3 (presence of the very key the guarded code records): a live index has that state from earlier passes, a fresh newest-first scan has not met the older entries yet; " +
+			"(D12) go-orbit-db's Store.Load on the open path is not run under a context weshnet derives with context.WithTimeout/WithDeadline, nor with a positive entry budget, while its error is not enforced (a silently truncated log after reopen); a discarded Load error under the caller's context is noted only (it can hide an IO failure or the caller's own cancellation, both outside the property's quantifier). " +
 			"Not decided: convergence of go-ipfs-log itself beyond the choice of comparator (what Load/Join put into the log), equality of the log before and after reopen, that a handler stores the right value for its event type (C07), values written through state that escapes into callees outside the handlers, that a never-reset keep-first set with a single write site (devices by device key) receives the same value from every event about one key, and that skipping entries inside the loop body (continue on undecodable entries) is harmless.",
 		Trusted:     []string{"golang.org/x/tools go/packages+go/ssa (v0.29.0)", "go-ipfs-log: Log.Values() is the deterministic clock-sorted traversal (oldest first), GetEntries()/RawHeads() are insertion-ordered, OrderedMap.Reverse/Slice/Copy keep or reverse that order", "slices.Reverse reverses in place", "sync.RWMutex semantics; lock identity by owner type + field"},
 		Assumptions: []string{"go-orbit-db calls UpdateIndex with the store's whole oplog after every local append, replication batch and load", "go-orbit-db does not serialise its UpdateIndex calls (local append vs replication/load may overlap)", "one mutex per index object (lock identity is the class owner type + field)"},
-		Floors:      map[string]int{"D1": 1, "D2": 2, "D3": 12, "D4": 25, "D5": 5, "D6": 1, "D7": 1, "D8": 15, "D9": 1},
+		Floors:      map[string]int{"D1": 1, "D2": 2, "D3": 12, "D4": 25, "D5": 5, "D6": 1, "D7": 1, "D8": 15, "D9": 1, "D10": 1, "D11": 15, "D12": 1},
 		Borrows: []Borrow{
 			{From: "C07", Rules: []string{"D7"}, Why: "the state is a function of the whole entry set only if the index scan visits every entry: leaving the scan loop early (break / return nil on an unknown type, an undecodable entry or a handler error) makes the state depend on what happens to lie newer than the entry that stopped it"},
 		},
@@ -1349,6 +1352,7 @@ func runC04(c *Ctx) {
 		c.undecided("D1", "StoreIndex implementations", token.NoPos, "no module type implements %s.StoreIndex with an UpdateIndex that walks log entries", c04PkgOrbitIface)
 	}
 	c04RuleD9(c)
+	c04RuleD12(c)
 	// advisory: other readers of the insertion-ordered entry map
 	var others []string
 	for _, fn := range w.ModFuncs {
@@ -1634,6 +1638,8 @@ func (ix *c04Index) run() bool {
 	ix.ruleD6()
 	ix.ruleD7()
 	ix.ruleD8()
+	ix.ruleD10()
+	ix.ruleD11()
 	return true
 }
 
@@ -2831,5 +2837,352 @@ func c04RuleD9(c *Ctx) {
 	}
 	if n == 0 {
 		c.undecided("D9", "CreateDBOptions builder", token.NoPos, "no module function with a *Group parameter fills the Identity of a go-orbit-db CreateDBOptions: the options of the group stores were not found")
+	}
+}
+
+// ---------------------------------------------------------------------------
+// D10: every successful UpdateIndex rebuilds the state from the whole snapshot. A success
+// return that is reachable without going through the entry loop leaves the state of an OLDER
+// log in place; when the decision to skip is taken on something the index remembers from an
+// earlier call (a "tip" hash, a length, a flag) it is a guess that the log did not change, and
+// entries merged BELOW the remembered tip (a concurrent branch, an older branch delivered
+// late) are never indexed while a fresh replica indexes them.
+
+func (ix *c04Index) stateReadSeeds(fn *ssa.Function, fields func(int) bool) []ssa.Value {
+	var out []ssa.Value
+	for _, b := range fn.Blocks {
+		for _, in := range b.Instrs {
+			switch x := in.(type) {
+			case *ssa.UnOp:
+				if x.Op != token.MUL {
+					continue
+				}
+				if f, direct, _, ok := ix.rootField(x.X); ok && direct && fields(f) {
+					out = append(out, x)
+				}
+			}
+		}
+	}
+	return out
+}
+
+func (ix *c04Index) ruleD10() {
+	c := ix.c
+	upd := ix.Update
+	hdr := ix.entryLoop.Header
+	construct := fnName(upd) + "+full-rescan"
+	// success returns reachable from the entry without entering the entry loop
+	cut := map[edge]bool{}
+	for _, p := range hdr.Preds {
+		cut[edge{p, hdr}] = true
+	}
+	r := reach(upd.Blocks[0], cut)
+	var bypass []*ssa.Return
+	for _, ret := range returnsOf(upd) {
+		if r[ret.Block()] && isSuccessReturn(ret) {
+			bypass = append(bypass, ret)
+		}
+	}
+	if len(bypass) == 0 {
+		c.ok("D10", construct, upd.Pos(), "every success return of UpdateIndex lies behind the entry loop: each call rebuilds the state from the whole snapshot")
+		return
+	}
+	// what decides the bypass: anything read from the index object (remembered from earlier calls)?
+	// (fields written somewhere in the UpdateIndex cycle, read in the code that runs before /
+	// around the loop; configuration fields such as the group never change between calls)
+	state := map[int]bool{}
+	for _, wr := range ix.writes {
+		if _, isCB := ix.cbFields[wr.Field]; !isCB && !ix.lockFields[wr.Field] {
+			state[wr.Field] = true
+		}
+	}
+	var seeds []ssa.Value
+	for _, sd := range ix.stateReadSeeds(upd, func(f int) bool { return state[f] }) {
+		if in, ok := sd.(ssa.Instruction); ok && r[in.Block()] && !ix.entryLoop.Body[in.Block()] {
+			seeds = append(seeds, sd)
+		}
+	}
+	// results of methods of the index called before the loop may carry remembered state too
+	for _, b := range upd.Blocks {
+		for _, in := range b.Instrs {
+			if call, ok := in.(*ssa.Call); ok {
+				if !r[b] || ix.entryLoop.Body[b] {
+					continue
+				}
+				if cal := staticCallee(call.Common()); cal != nil && inModule(cal) && len(call.Common().Args) > 0 && c04PtrTo(call.Common().Args[0].Type(), ix.T) && call.Type() != nil {
+					if tup, isT := call.Type().(*types.Tuple); !isT || tup.Len() > 0 {
+						seeds = append(seeds, call)
+					}
+				}
+			}
+		}
+	}
+	t := taintFrom(upd, seeds...)
+	var remembered []string
+	for _, ret := range bypass {
+		for _, b := range upd.Blocks {
+			if ix.entryLoop.Body[b] {
+				continue
+			}
+			ifi, ok := b.Instrs[len(b.Instrs)-1].(*ssa.If)
+			if !ok || !t[ifi.Cond] || !c04ControlDependents(b)[ret.Block()] {
+				continue
+			}
+			// name the fields involved
+			names := map[string]bool{}
+			for _, sd := range seeds {
+				if u, ok := sd.(*ssa.UnOp); ok {
+					if f, _, _, ok := ix.rootField(u.X); ok {
+						tt := taintFrom(upd, sd)
+						if tt[ifi.Cond] {
+							names[ix.fieldName(f)] = true
+						}
+					}
+				}
+			}
+			var ns []string
+			for n := range names {
+				ns = append(ns, n)
+			}
+			sort.Strings(ns)
+			what := "a value computed by the index from its own fields"
+			if len(ns) > 0 {
+				what = "index field(s) {" + strings.Join(ns, ",") + "} remembered from an earlier call"
+			}
+			remembered = append(remembered, fmt.Sprintf("the return at %s is taken on a test (%s) of %s", c.pos(posOf(ret)), c.pos(posOf(ifi)), what))
+		}
+	}
+	if len(remembered) > 0 {
+		sort.Strings(remembered)
+		c.fail("D10", construct, posOf(bypass[0]), "UpdateIndex can return successfully without scanning the log: %s. An unchanged remembered value does not mean an unchanged log: entries merged below it (a concurrent branch of another device, an older branch delivered late) are joined but never indexed, while a replica that indexes the same entries from scratch (or this one after reopen) has them", strings.Join(remembered, "; "))
+		return
+	}
+	c.ok("D10", construct, posOf(bypass[0]), "%d success return(s) bypass the entry loop, none decided on state the index remembers from an earlier call (decided on the snapshot itself, e.g. an empty log)", len(bypass))
+}
+
+// ---------------------------------------------------------------------------
+// D11: inside the scan, what a handler does with an entry does not depend on never-reset index
+// state accumulated from OTHER entries. A live index has that state from earlier passes, a
+// fresh one (reopen, or one batch) meets the newest entries first and has not seen the older
+// ones yet, so such a decision flips with the way the entries arrived. The one legitimate
+// read of never-reset state in a handler is the idempotence guard of D3: the presence test of
+// the very key the guarded code records in the tested set. Cross-entry conditions belong in
+// the post-index actions, which run after the whole scan.
+
+func (ix *c04Index) ruleD11() {
+	c := ix.c
+	reset := ix.resetKinds()
+	state := map[int]bool{}
+	for _, wr := range ix.writes {
+		if _, isCB := ix.cbFields[wr.Field]; !isCB {
+			state[wr.Field] = true
+		}
+	}
+	neverReset := func(f int) bool { return state[f] && reset[f] == "" }
+	byFn := map[*ssa.Function][]*c04Write{}
+	for _, wr := range ix.writes {
+		if state[wr.Field] && !wr.Fresh {
+			byFn[wr.Fn] = append(byFn[wr.Fn], wr)
+		}
+	}
+	var fns []*ssa.Function
+	for f, ph := range ix.phaseOf {
+		if ph == "loop" {
+			fns = append(fns, f)
+		}
+	}
+	sort.Slice(fns, func(i, j int) bool { return fns[i].String() < fns[j].String() })
+	// helpers whose result depends on never-reset state (a lookup wrapped in a method)
+	dep := map[*ssa.Function]int{} // function -> a field its result depends on (+1)
+	seedsOf := func(fn *ssa.Function) []ssa.Value {
+		seeds := ix.stateReadSeeds(fn, neverReset)
+		for _, b := range fn.Blocks {
+			for _, in := range b.Instrs {
+				if call, ok := in.(*ssa.Call); ok {
+					if cal := staticCallee(call.Common()); cal != nil && dep[cal] > 0 {
+						seeds = append(seeds, call)
+					}
+				}
+			}
+		}
+		return seeds
+	}
+	fieldOfSeed := func(sd ssa.Value) int {
+		switch x := sd.(type) {
+		case *ssa.UnOp:
+			if f, _, _, ok := ix.rootField(x.X); ok {
+				return f
+			}
+		case *ssa.Call:
+			if cal := staticCallee(x.Common()); cal != nil && dep[cal] > 0 {
+				return dep[cal] - 1
+			}
+		}
+		return -1
+	}
+	for changed, iter := true, 0; changed && iter < 4; iter++ {
+		changed = false
+		for _, fn := range fns {
+			if dep[fn] > 0 || fn.Signature.Results().Len() == 0 {
+				continue
+			}
+			if _, isRoot := ix.rootOf[fn]; isRoot {
+				continue
+			}
+			for _, sd := range seedsOf(fn) {
+				t := taintFrom(fn, sd)
+				hit := false
+				for _, r := range returnsOf(fn) {
+					for _, v := range retResults(r) {
+						if t[v] {
+							hit = true
+						}
+					}
+				}
+				for _, b := range fn.Blocks {
+					if ifi, ok := b.Instrs[len(b.Instrs)-1].(*ssa.If); ok && t[ifi.Cond] {
+						cd := c04ControlDependents(b)
+						for _, r := range returnsOf(fn) {
+							if cd[r.Block()] {
+								hit = true
+							}
+						}
+					}
+				}
+				if hit {
+					dep[fn] = fieldOfSeed(sd) + 1
+					changed = true
+					break
+				}
+			}
+		}
+	}
+	// is the If at block b the idempotence guard of fn (presence of the key the guarded code records)?
+	isSubjectGuard := func(fn *ssa.Function, b *ssa.BasicBlock) bool {
+		for _, g := range ix.guardEdges(fn) {
+			if g.E.From != b || (g.Kind != "lookup" && g.Kind != "helper") {
+				continue
+			}
+			if g.Kind == "helper" {
+				return true
+			}
+			for _, w2 := range ix.writes {
+				if w2.Fn == fn && w2.Kind == "mapupdate" && w2.Field == g.Field && edgeDominates(g.E, w2.Instr.Block()) {
+					if same, known := c04SameKey(g.Key, w2.Key); same || !known {
+						return true
+					}
+				}
+			}
+		}
+		return false
+	}
+	nReads := 0
+	for _, fn := range fns {
+		seeds := seedsOf(fn)
+		if len(byFn[fn]) == 0 && len(seeds) == 0 {
+			continue
+		}
+		nReads += len(seeds)
+		construct := fnName(fn) + "+no-cross-entry-decision"
+		var bad []string
+		var badPos token.Pos
+		for _, sd := range seeds {
+			f := fieldOfSeed(sd)
+			t := taintFrom(fn, sd)
+			for _, b := range fn.Blocks {
+				ifi, ok := b.Instrs[len(b.Instrs)-1].(*ssa.If)
+				if !ok || !t[ifi.Cond] || isSubjectGuard(fn, b) {
+					continue
+				}
+				cd := c04ControlDependents(b)
+				// what does the decision control: a write to index state, a call that leads to
+				// one, or the error the handler reports
+				var what []string
+				for _, wr := range byFn[fn] {
+					if cd[wr.Instr.Block()] {
+						what = append(what, "the write to "+ix.fieldName(wr.Field)+" at "+c.pos(posOf(wr.Instr)))
+					}
+				}
+				for _, e := range ix.w.callGraph().callees[fn] {
+					if cd[e.Site.Block()] && len(byFn[e.Callee]) > 0 {
+						what = append(what, "the call of "+fnName(e.Callee)+" at "+c.pos(posOf(e.Site.(ssa.Instruction))))
+					}
+				}
+				if len(what) == 0 {
+					continue
+				}
+				sort.Strings(what)
+				if !badPos.IsValid() {
+					badPos = posOf(ifi)
+				}
+				fname := "index state"
+				if f >= 0 {
+					fname = ix.fieldName(f)
+				}
+				bad = append(bad, fmt.Sprintf("the test at %s reads %s, which is never reset and is filled from other entries, and decides %s", c.pos(posOf(ifi)), fname, strings.Join(what, ", ")))
+			}
+		}
+		if len(bad) > 0 {
+			sort.Strings(bad)
+			c.fail("D11", construct, badPos, "a handler's treatment of an entry depends on never-reset state accumulated from other entries: %s. A live index knows that state from earlier passes; a fresh index (reopen, or the entries in one batch) scans newest first and has not met the older entries yet: the result flips with the arrival order (cross-entry conditions belong in a post-index action)", strings.Join(bad, "; "))
+			continue
+		}
+		c.ok("D11", construct, fn.Pos(), "%d read(s) of never-reset index state, used only as the idempotence guard of the subject being recorded (or not deciding any write)", len(seeds))
+	}
+	c.count("reads_of_never_reset_state_in_handlers", nReads)
+}
+
+// ---------------------------------------------------------------------------
+// D12: opening a store loads its whole local log. The Load of go-orbit-db's Store interface
+// on the open path must not be given a deadline that weshnet adds itself (a context derived
+// from context.WithTimeout / WithDeadline) nor a positive entry budget while its error is not
+// enforced: a slow read-back would then open the group silently with a truncated log, and the
+// same replica reports another state after reopen than before.
+
+func c04RuleD12(c *Ctx) {
+	w := c.W
+	n := 0
+	for _, fn := range w.ModFuncs {
+		for _, b := range fn.Blocks {
+			for _, in := range b.Instrs {
+				call, ok := in.(*ssa.Call)
+				if !ok || !c04IfaceMethod(call.Common(), c04PkgOrbitIface, "Load") || len(call.Common().Args) != 2 {
+					continue
+				}
+				sig := call.Common().Signature()
+				if sig.Results().Len() != 1 || !isErrorType(sig.Results().At(0).Type()) {
+					continue
+				}
+				n++
+				c.analysed(fn)
+				construct := fnName(fn) + "+Store.Load"
+				enforced := rejectOnFailure(fn, errVerdict(call)).OK
+				rs := rootsOf(provCfg{W: w, InlineResults: true}, call.Common().Args[0])
+				derived := ""
+				for _, k := range []string{"context.WithTimeout", "context.WithDeadline", "context.WithTimeoutCause", "context.WithDeadlineCause"} {
+					if rs["call:"+k] {
+						derived = k
+					}
+				}
+				amount, isConst := c04ConstInt(call.Common().Args[1])
+				switch {
+				case derived != "" && !enforced:
+					c.fail("D12", construct, posOf(call), "the store's Load on the open path runs under a context from %s and its error is discarded: when the deadline passes the group opens silently with a partially loaded log (the state after reopen differs from the state before, and later writes do not link to the missing part)", derived)
+				case isConst && amount > 0 && !enforced:
+					c.fail("D12", construct, posOf(call), "the store's Load on the open path is limited to %d entries and its error is discarded: a longer log is opened truncated", amount)
+				case derived != "" || (isConst && amount > 0):
+					c.ok("D12", construct, posOf(call), "Load is bounded (%s / amount %d) but its error is enforced: a partial load fails the open instead of being used", derived, amount)
+				default:
+					msg := "the store's Load runs under the caller's context with no entry budget"
+					if !enforced {
+						msg += "; its error is discarded, which with the caller's context can only hide an IO failure or the caller's own cancellation (advisory)"
+					}
+					c.ok("D12", construct, posOf(call), "%s", msg)
+				}
+			}
+		}
+	}
+	if n == 0 {
+		c.undecided("D12", "Store.Load", token.NoPos, "no call of go-orbit-db's Store.Load found in the module: the open path was not recognised")
 	}
 }
